@@ -121,7 +121,7 @@ def rule_b(ctx):
         ctx.ob("slot|writes-through-guard", len(dm) == 1, "the value is written through the mutex guard", dm)
     nb = ctx.body("<ports::sink::event_slot::EventSlot as std::iter::Iterator>::next")
     if nb:
-        tk = list(nb.calls("^std::option::Option::take$"))
+        tk = list(nb.calls(r"^std::option::Option::take$|^std::mem::take$"))
         rets = K.ret_assigns(nb)
         ok = len(tk) == 1 and any(r.is_term and r.key() == tk[0].key() for r in rets) and \
             any(c.kind == "variant" and c.data[1] == {"Ok"} for c in nb.conditions(tk[0]))
